@@ -967,7 +967,8 @@ fn final_state_checks(sim: &mut ChainSim) -> Result<(), Violation> {
 		let d = sim.check_node(n)?;
 		let compacted = sim.models[n].tail_height > 0;
 		if sim.oracles.head || sim.oracles.utxo || sim.oracles.stable_ops || sim.oracles.bitmap {
-			if d.head != world.blocks[winner].hash && !compacted {
+			let all_in = (1..world.blocks.len()).all(|i| sim.models[n].accepted.contains(&i));
+			if d.head != world.blocks[winner].hash && (!compacted || all_in) {
 				return Err(sim.viol(
 					"final-head-not-winner",
 					format!("node {} finished on {}@{} but the unique most-work block is #{} {}@{}", n, d.head, d.head_height, winner, world.blocks[winner].hash, world.blocks[winner].height),
@@ -1004,6 +1005,7 @@ pub struct SchedCfg {
 	pub restart_pct: u64,
 	pub validate_pct: u64,
 	pub bad_pct: u64,
+	pub compact_pct: u64,
 	/// window (in blocks) within which body deliveries are shuffled; 0 = full permutation
 	pub shuffle_window: usize,
 }
@@ -1018,6 +1020,7 @@ impl SchedCfg {
 			restart_pct: *rng.pick(&[0, 0, 3, 8]),
 			validate_pct: *rng.pick(&[0, 5, 10]),
 			bad_pct: 0,
+			compact_pct: 0,
 			shuffle_window: *rng.pick(&[0, 0, 4, 8]),
 		}
 	}
@@ -1143,6 +1146,9 @@ pub fn gen_schedule(world: &World, cfg: &SchedCfg, rng: &mut SimRng) -> (Vec<Op>
 			}
 			if rng.chance(cfg.validate_pct, 100) {
 				seq.push(Op::Validate { node, fast: rng.chance(2, 3) });
+			}
+			if rng.chance(cfg.compact_pct, 100) {
+				seq.push(Op::Compact { node });
 			}
 		}
 		if cfg.bad_pct > 0 && !world.bad.is_empty() {
